@@ -11,3 +11,4 @@ open Cache Cache.Prims
 #print axioms C18_syncmap_removals_counted_exactly
 #print axioms C18_syncmap_entries_conserved
 #print axioms C18_blind_sweep_overcounts
+#print axioms C18_default_backend_reports_under_failover_name
